@@ -236,7 +236,7 @@ def except1(ctx: Ctx, chk) -> None:
             sleeping = False
             if cal is not None:
                 flush = any(f.fq in flush_fqs for f, _fr in tables.reachable_defs(ctx, cal, V))
-                for f in tables.chain_defs(ctx, cal, V):
+                for f in tables.chain_and_helpers(ctx, cal, V):
                     for n in ctx.own_nodes(f):
                         if isinstance(n, ast.Assign) and any(isinstance(t, ast.Attribute) and t.attr == "sleeping" for t in n.targets):
                             sleeping = True
